@@ -198,6 +198,19 @@ class Recurrent(torch.nn.Module):
         return torch.tanh(self.lin(x)) * 0.5 + 0.5 * x[..., -self.lin.out_features:]
 
 
+class InPlaceFirstLayer(torch.nn.Module):
+    """A user model whose first layer works in place on its input (as Hardtanh(inplace=True) / ReLU(inplace=True) first layers do): the tensor the
+    hedger hands to the model is the model's to overwrite, so it must never be a view of market data or of the hedger's own state."""
+
+    def __init__(self, n_in, n_out):
+        super().__init__()
+        self.lin = torch.nn.Linear(n_in, n_out)
+
+    def forward(self, x):
+        x.sub_(1.0).clamp_(-3.0, 3.0)
+        return self.lin(x)
+
+
 def feature_pool(derivative):
     option = hasattr(derivative, "strike") and hasattr(derivative, "max_moneyness")
     from pfhedge.features.features import Ones
@@ -223,7 +236,7 @@ def make_features(rng, derivative, n=None, barrier=True):
 
 def make_hedger(rng, derivative, n_hedges, model_kind=None, dtype=None, criterion=None):
     option = getattr(derivative, "_pfv_kind", "") in OPTIONS
-    kinds = ["naked", "linear", "mlp", "mlp_prev", "recurrent", "lazy_mlp"]
+    kinds = ["naked", "linear", "mlp", "mlp_prev", "recurrent", "lazy_mlp", "inplace_single"]
     if n_hedges == 1 and option:
         kinds += ["bs", "bs", "ww"]
     model_kind = model_kind or pick(rng, kinds)
@@ -241,6 +254,11 @@ def make_hedger(rng, derivative, n_hedges, model_kind=None, dtype=None, criterio
     elif model_kind == "naked":
         model = Naked(out_features=n_hedges)
         inputs = ["empty"] if rng.random() < 0.5 else make_features(rng, derivative)
+    elif model_kind == "inplace_single":
+        # exactly one input feature (nothing to concatenate) and a first layer that overwrites its input
+        single = pick(rng, ["underlier_spot", "volatility", "prev_hedge", "underlier_spot"] + (["log_moneyness", "moneyness"] if option else []))
+        inputs = [single]
+        model = InPlaceFirstLayer(n_hedges if single == "prev_hedge" else 1, n_hedges)
     else:
         inputs = make_features(rng, derivative)
         if model_kind in ("mlp_prev", "recurrent"):
